@@ -15,6 +15,8 @@ PROGRAMS = [
                 'fn main() -> int { let x: int = (add 40 2)\n (println x)\n return x }\nshadow main { assert true }\n', 42),
     ('strings', 'fn greet(n: string) -> string { return (+ "hi \\"" (+ n "\\"")) }\nshadow greet { assert true }\n'
                 'fn main() -> int { (println (greet "bob"))\n (println (greet "bob"))\n (println "")\n return 7 }\nshadow main { assert true }\n', 7),
+    ('neardup', 'fn main() -> int { (println "item-a1")\n (println "item-a2")\n (println "item-b1")\n (println "jtem-a1")\n (println "item-a1")\n return 2 }\n'
+                'shadow main { assert true }\n', 2),
     ('loop', 'fn main() -> int { let mut s: int = 0\n let mut i: int = 0\n while (< i 10) { set s (+ s i)\n set i (+ i 1) }\n (println s)\n return s }\n'
              'shadow main { assert true }\n', 45),
     ('floats', 'fn main() -> int { let x: float = (* 1.5 2.0)\n (println x)\n return 1 }\nshadow main { assert true }\n', 1),
@@ -90,10 +92,22 @@ def gen_desc(rng, big=False):
         if k < 0.6: return rng.randrange(0, 16)
         return rng.getrandbits(bits)
     ops = []
-    pool = [b'', b'main', b'a', b'"q"', b'\x00', b'\x00\x00', 'héllo ☃'.encode(), b'main\x00x', b'__init__']
+    pool = [b'', b'main', b'a', b'"q"', b'\x00', b'\x00\x00', 'héllo ☃'.encode(), b'main\x00x', b'__init__',
+            b'maim', b'mbin', b'Main', b'ab', b'ac', b'a\x00', b'a\x01', b'main\x00y', b'\x00\x01']   # near-duplicates: same length, one byte apart
     ns = rng.choice([0, 0, 1, 2, 5, 12, 40 if big else 8])
+    prev = []
     for _ in range(ns):
-        s = rng.choice(pool) if rng.random() < 0.5 else bytes(rng.getrandbits(8) for _ in range(rng.choice([0, 1, 3, 4, 5, 17, 64])))
+        k = rng.random()
+        if k < 0.45:
+            s = rng.choice(pool)
+        elif k < 0.65 and prev and len(prev[-1]) > 0:
+            s = bytearray(rng.choice(prev)); 
+            if len(s) > 0:
+                j = rng.randrange(len(s)); s[j] ^= 1 << rng.randrange(8)     # a copy of an earlier string with one bit changed
+            s = bytes(s)
+        else:
+            s = bytes(rng.getrandbits(8) for _ in range(rng.choice([0, 1, 3, 4, 5, 17, 64])))
+        prev.append(s)
         ops.append('s ' + hexs(s))
     for _ in range(rng.choice([0, 1, 1, 2, 3])):
         n = rng.choice([0, 1, 2, 9, 31, 200, 5000 if big else 33])
